@@ -1,7 +1,9 @@
 package main
 
 import (
+	"fmt"
 	"go/types"
+	"os"
 	"strings"
 
 	"golang.org/x/tools/go/ssa"
@@ -55,10 +57,28 @@ func runC11(p *Program, r *Result) {
 			continue
 		}
 		x, y := stripConv(c.Common().Args[0]), stripConv(c.Common().Args[1])
-		isRef := func(v ssa.Value) bool {
+		// the reference set: the Phi the loop carries, or a merge inside the loop that has it
+		// among its incoming values (`if i == 0 { labels = l }` in front of the comparison)
+		var isRefD func(v ssa.Value, d int) bool
+		isRefD = func(v ssa.Value, d int) bool {
 			ph, ok := v.(*ssa.Phi)
-			return ok && ph.Block() == loop.Header
+			if !ok || d > 3 {
+				return false
+			}
+			if ph.Block() == loop.Header {
+				return true
+			}
+			if !loop.inLoop(ph.Block()) {
+				return false
+			}
+			for _, e := range ph.Edges {
+				if isRefD(stripConv(e), d+1) {
+					return true
+				}
+			}
+			return false
 		}
+		isRef := func(v ssa.Value) bool { return isRefD(v, 0) }
 		switch {
 		case isRef(x) && !isRef(y):
 			wcall, labelsV = c, y
@@ -138,7 +158,33 @@ func runC11(p *Program, r *Result) {
 						return false
 					}
 					x, y := a.Call.Args[0].V, a.Call.Args[1].V
-					return (x == ssa.Value(refPhi) && y != nil && sameLabels(y)) || (y == ssa.Value(refPhi) && x != nil && sameLabels(x))
+					x0, y0 := x, y
+					if os.Getenv("AGECHECK_DEBUG_C11") != "" {
+						fmt.Fprintf(os.Stderr, "C11 path %s atom %s x=%v y=%v ref=%v\n", pa.String(), short(a.String()), x, y, refPhi)
+					}
+					// as seen where the comparison is made (the header the path ends in is the next iteration's)
+					at := len(pa.Blocks) - 2
+					if a.If != nil {
+						for j, b := range pa.Blocks[:len(pa.Blocks)-1] {
+							if b == a.If.Block() {
+								at = j
+							}
+						}
+					}
+					if x != nil {
+						x = stripConv(pa.ResolveAt(x, at))
+					}
+					if y != nil {
+						y = stripConv(pa.ResolveAt(y, at))
+					}
+					if os.Getenv("AGECHECK_DEBUG_C11") != "" {
+						fmt.Fprintf(os.Stderr, "C11   resolved at %d x=%v(%s) y=%v same=%v\n", at, x, x.Name(), y, sameLabels(y))
+					}
+					lvAt := stripConv(pa.ResolveAt(labelsV, at))
+					isLabels := func(v0, v ssa.Value) bool {
+						return v != nil && (sameLabels(v) || v0 != nil && sameLabels(v0) || v == lvAt)
+					}
+					return (x == ssa.Value(refPhi) && isLabels(y0, y)) || (y == ssa.Value(refPhi) && isLabels(x0, x))
 				})
 				// value flowing back into the reference phi
 				pred := pa.Blocks[len(pa.Blocks)-2]
@@ -355,7 +401,14 @@ func runC11(p *Program, r *Result) {
 	r.Rule("R11.5", "a recipient with labels is wrapped through WrapWithLabels, any other through Wrap with no labels", 2)
 	{
 		// this recipient's labels and stanzas as values: merges over the two branches
-		lt := short(tb.Term(labelsV).String())
+		lterm := tb.Term(labelsV)
+		// a sorted full copy of the labels is the same set of labels
+		if lterm.Op == "Call" && lterm.S == "sort.Sorted" && len(lterm.Args) == 1 {
+			if c := lterm.Args[0]; c.Op == "Copy" && len(c.Args) == 2 && isLenTerm(c.Args[1]) && len(c.Args[1].Args) == 1 && c.Args[1].Args[0].String() == c.Args[0].String() {
+				lterm = c.Args[0]
+			}
+		}
+		lt := short(lterm.String())
 		wantL := specRecipe(r, "Encrypt.labels")
 		r.Check(lt == wantL, enc.String(), "labels-branch", "", lt, "this recipient's labels are "+lt+"\n   want "+wantL)
 		// the plain branch runs only when the type assertion failed, the labelled one only when it held
@@ -379,6 +432,9 @@ func runC11(p *Program, r *Result) {
 	// ---- R11.6
 	r.Rule("R11.6", "the plugin recipient's label set is the plugin's labels arguments; a repeat is an error", 2)
 	checkPluginLabels(p, r)
+	// ---- R11.7
+	r.Rule("R11.7", "a plugin recipient that fails (error message, no stanza, broken conversation) makes WrapWithLabels fail, so that Encrypt refuses before writing (= R16.2, recipient side)", 5)
+	checkPluginRecipientArms(p, r)
 }
 
 // checkPluginLabels is rule R11.6 (shared with C16 R16.3).
